@@ -25,6 +25,11 @@ class SimLoop(asyncio.SelectorEventLoop):
         self.exceptions: list[dict] = []
         self.set_exception_handler(self._record_exception)
         self._clock_resolution = 1e-9
+        # opt-in: an executor call still runs inline (deterministic), but its result reaches the awaiting task one
+        # loop iteration later, as with a real thread pool (`await` on a future that is already done does not
+        # suspend, so with the default every `await loop.run_in_executor(...)` is atomic — a window between a check
+        # and a claim that straddles such an await cannot open)
+        self.executor_suspends = False
 
     # -- virtual clock ---------------------------------------------------------------------
     def time(self) -> float:
@@ -69,8 +74,15 @@ class SimLoop(asyncio.SelectorEventLoop):
                 func, args = pickle.loads(pickle.dumps((func, args)))
                 fut.set_result(pickle.loads(pickle.dumps(func(*args))))
                 return fut
+            if self.executor_suspends:
+                res = func(*args)
+                self.call_soon(lambda: fut.cancelled() or fut.set_result(res))
+                return fut
             fut.set_result(func(*args))
         except BaseException as e:  # noqa
+            if self.executor_suspends:
+                self.call_soon(lambda e=e: fut.cancelled() or fut.set_exception(e))
+                return fut
             fut.set_exception(e)
         return fut
 
